@@ -190,7 +190,7 @@ pub fn check(c: &Case, ctx: &mut Ctx) -> Result<(), Failure> {
 }
 
 const SALPHA: [f64; 4] = [1.0, 2.0, 3.0, 5.0];
-fn balpha() -> [RawBar; 6] {
+pub fn balpha() -> [RawBar; 6] {
     [
         RawBar::hlcv(10.0, 8.0, 9.0, 100.0),
         RawBar::hlcv(11.0, 7.0, 9.0, 50.0),  // same typical price as the first, different bar
